@@ -617,8 +617,10 @@ def ni_standalone(perv, d, j, kw):
         return None
 
 
-def nicurve_trace(rng):
-    """non_ideal_diffusion_curve on a synthetic curve set, with the public best-fit search as oracle"""
+def nicurve_trace(rng, shape=None):
+    """non_ideal_diffusion_curve on a synthetic curve set, with the public best-fit search as oracle; shape (from MC_NICurveQ):
+    {N, hasInit, up, outcome} forces the number of steps (3 stands for "three or more"), initial permeances, the direction of the
+    grid and whether it stays inside [0,1]"""
     mix = gen.some_mixture(rng, p_builtin=0.6)
     membrane = make_membrane(rng, mix)
     T = rng.uniform(300.0, 350.0)
@@ -631,7 +633,9 @@ def nicurve_trace(rng):
     c0 = pv.Composition(p=x0, type=basis)
     model = gen.tstr(rng, rng.choice(["NRTL", "UNIQUAC"]))
     mode = rng.choice(["vac", "temp", "press"])
-    n = rng.randrange(2, 7)
+    n = rng.choice([0, 1, 2, 3, 4, 5, 6])
+    if shape is not None:
+        n = shape["N"] if shape["N"] < 3 else rng.randrange(3, 7)
     P0 = None
     dx = rng.uniform(0.005, 0.04)
     x0w = own_weight(x0, basis, mix)
@@ -640,6 +644,11 @@ def nicurve_trace(rng):
         dx = (1.0 - x0w + rng.choice([-1, 1]) * rng.choice([0.0, 1e-12, 1e-3])) / (n + 1 + rng.choice([0, 0, -1]))
     elif r < 0.3:       # a descending grid, a third of them ending next to 0
         dx = -dx if rng.random() < 0.66 else -(x0w + rng.choice([-1, 1]) * rng.choice([0.0, 1e-12, 1e-3])) / (n + 1 + rng.choice([0, 0, -1]))
+    if shape is not None:
+        # the grid x0w + j dx, j = 0 .. n + 1 (look-ahead point included), stays inside [0,1] or leaves it, upwards or downwards
+        room = (1.0 - x0w) if shape["up"] else x0w
+        mag = room / (n + 1) * (rng.uniform(0.2, 0.9) if shape["outcome"] == "return" else rng.uniform(1.05, 2.0))
+        dx = mag if shape["up"] else -mag
     prec = rng.choice([5e-5, 5e-5, 1e-7])
     kw = dict(diffusion_curve_set=cs, feed_temperature=T, initial_feed_composition=c0, delta_composition=dx,
               number_of_steps=n, precision=prec, permeate_temperature=rng.uniform(200.0, T - 25.0) if mode == "temp" else None,
@@ -648,7 +657,7 @@ def nicurve_trace(rng):
                      "n_second": rng.choice([None, None, 0, 1]), "m_second": rng.choice([None, None, 0, 1]),
                      "include_zero": rng.random() < 0.3}
     kw.update(sc["fitopts"])
-    if rng.random() < 0.5:
+    if (rng.random() < 0.5) if shape is None else shape["hasInit"]:
         u = gen.tstr(rng, rng.choice([KG, "SI", "GPU"]))
         P0 = (pv.Permeance(gen.logu(rng, 1e-3, 0.2)).convert(u, mix.first_component),
               pv.Permeance(gen.logu(rng, 1e-5, 1e-2)).convert(u, mix.second_component))
@@ -656,7 +665,8 @@ def nicurve_trace(rng):
     try:
         d = perv.non_ideal_diffusion_curve(**kw)
     except Exception as e:  # noqa: BLE001
-        return [{"ev": "NIStart", "outcome": "raise", "exc": type(e).__name__, "hasFits": False, "x0w": F(x0w), "dx": F(dx), "N": n}]
+        return [{"ev": "NIStart", "outcome": "raise", "exc": type(e).__name__, "hasFits": False, "x0w": F(x0w), "dx": F(dx), "N": n,
+                 "P0given": P0 is not None}]
     fo = fit_oracle(sc, membrane, model_kind="curve")
     tr = [{"ev": "NIStart", "outcome": "return", "hasFits": True, "dx": F(dx), "prec": F(prec), "fitopts": str(sc["fitopts"]), "single": fo["single"], "fits_orc": fo["orc"], "Ea": fo["Ea"],
            "T": F(T), "Tcurve": F(cs.diffusion_curves[0].feed_temperature), "x0w": F(x0w), "basis": basis,
@@ -668,6 +678,21 @@ def nicurve_trace(rng):
                    "J": [F(d.partial_fluxes[j][0]), F(d.partial_fluxes[j][1])], "Jstd": ni_standalone(perv, d, j, kw)})
     tr.append({"ev": "NIEnd", "nx": len(d.feed_compositions), "nP": len(d.permeances), "nJ": len(d.partial_fluxes)})
     return tr
+
+
+def nicurve_shape_job(job):
+    """one recorded curve per run shape of MC_NICurveQ (a few attempts each: the fits may fail for reasons of their own)"""
+    import random
+    seed, shapes = job
+    rng = random.Random(seed)
+    out = []
+    for sh in shapes:
+        for _ in range(4):
+            tr = nicurve_trace(rng, shape=sh)
+            out.append(tr)
+            if tr[0]["outcome"] == sh["outcome"]:
+                break
+    return out
 
 
 def nicurve_job(job):
